@@ -43,7 +43,7 @@ def term_of(av: AV) -> str:
     if av.sym:
         return av.sym
     if av.kind == "tuple":
-        return "tuple(" + ",".join(term_of(x) for x in av.val) + ")"
+        return T("tuple", *[term_of(x) for x in av.val])
     if av.kind == "self":
         return "self"
     if av.kind == "obj":
@@ -58,6 +58,11 @@ def is_opaque(term: str) -> bool:
 
 
 STRUCT: dict = {}  # term string -> (op, args) for terms built by T(); ("const", value) for constants
+
+
+def K(value) -> str:
+    """Term of a constant (registered, so that normal forms see it as a literal)."""
+    return term_of(const(value))
 
 
 def T(op, *args) -> str:
@@ -139,7 +144,7 @@ class TermRule(BaseRule):
         if isinstance(node, ast.JoinedStr):
             parts = []
             for ch, av in children:
-                parts.append(repr(ch.value) if isinstance(ch, ast.Constant) else term_of(av))
+                parts.append(term_of(const(ch.value)) if isinstance(ch, ast.Constant) else term_of(av))
             return tv(T("fstr", *parts), none=False, truth=True if any(isinstance(ch, ast.Constant) and ch.value for ch, _ in children) else None)
         if isinstance(node, ast.Dict):
             return tv(T("dict", *[term_of(a) for a in avs]), none=False)
@@ -276,7 +281,8 @@ class TermRule(BaseRule):
                     return [Out("normal", st, const(len(pos[0].val)))]
                 except Exception:
                     pass
-            return [Out("normal", st, tv(T(f.id, *[term_of(p) for p in pos], *kws), none=False))]
+            typ = f"builtins.{f.id}" if f.id in ("str", "bytes", "int", "float", "list", "tuple", "set", "frozenset", "dict", "bytearray") else None
+            return [Out("normal", st, AV("unk", sym=T(f.id, *[term_of(p) for p in pos], *kws), none=False, typ=typ))]
         if isinstance(f, ast.Attribute) and isinstance(f.value, ast.Name) and f.value.id == "typing" and f.attr == "cast" and len(pos) == 2:
             return [Out("normal", st, pos[1])]
         return None
@@ -294,3 +300,102 @@ def _fold_binop(op, a, b):
     if isinstance(op, ast.FloorDiv):
         return a // b
     raise ValueError
+
+
+# ---------------------------------------------------------------------------- normal forms
+def _is_strconst(t):
+    op, a = destruct(t)
+    return op == "const" and isinstance(a, (str, bytes))
+
+
+def norm(t: str) -> str:
+    """Equational normal form of a term:
+       string building   a + b, f"..{x}..", sep.join([x1, .., xn])  ->  cat(x1, .., xn) with adjacent literals merged
+       min / max          flattened, arguments sorted
+       iter(x)            x
+    Applied bottom-up; anything else is rebuilt structurally."""
+    op, args = destruct(t)
+    if op is None or op == "const":
+        return t
+    nargs = [norm(a) for a in args]
+    if op in ("min", "max"):
+        flat = []
+        for a in nargs:
+            o2, a2 = destruct(a)
+            flat += list(a2) if o2 == op else [a]
+        return T(op, *sorted(flat))
+    if op == "iter" and len(nargs) == 1:
+        return nargs[0]
+    parts = None
+    if op in ("fstr", "cat"):
+        parts = list(nargs)
+    elif op == "add" and len(nargs) == 2:
+        l_op, _ = destruct(nargs[0])
+        r_op, _ = destruct(nargs[1])
+        if _is_strconst(nargs[0]) or _is_strconst(nargs[1]) or l_op == "cat" or r_op == "cat":
+            parts = list(nargs)
+    elif op == "join" and len(nargs) == 2 and _is_strconst(nargs[0]):
+        lop, largs = destruct(nargs[1])
+        if lop in ("list", "tuple") and not any(destruct(x)[0] in ("star", "rep") for x in largs):
+            parts = []
+            for i, x in enumerate(largs):
+                if i:
+                    parts.append(nargs[0])
+                parts.append(x)
+    if parts is not None:
+        flat = []
+        for p in parts:
+            o2, a2 = destruct(p)
+            flat += list(a2) if o2 == "cat" else [p]
+        merged = []
+        for p in flat:
+            if merged and _is_strconst(p) and _is_strconst(merged[-1]):
+                a, b = destruct(merged[-1])[1], destruct(p)[1]
+                if type(a) is type(b):
+                    merged[-1] = term_of(const(a + b))
+                    continue
+            if _is_strconst(p) and not destruct(p)[1]:
+                continue  # empty literal
+            merged.append(p)
+        if len(merged) == 1:
+            return merged[0]
+        # bytes built from encoded text and ASCII literals:  x.encode(E) + b"lit"  ==  (x + "lit").encode(E)   (E ASCII-compatible)
+        encs = set()
+        all_bytes = True
+        for p in merged:
+            o2, a2 = destruct(p)
+            if o2 == "encode" and len(a2) == 2 and destruct(a2[1])[0] == "const" and str(destruct(a2[1])[1]).lower().replace("_", "-") in ("utf-8", "utf8", "latin-1", "latin1", "iso-8859-1", "ascii"):
+                encs.add(a2[1])
+            elif o2 == "const" and isinstance(a2, bytes) and a2.isascii():
+                pass
+            else:
+                all_bytes = False
+        if all_bytes and len(encs) == 1:
+            inner = []
+            for p in merged:
+                o2, a2 = destruct(p)
+                inner.append(a2[0] if o2 == "encode" else term_of(const(a2.decode("ascii"))))
+            return T("encode", norm(T("cat", *inner)), next(iter(encs)))
+        return T("cat", *merged)
+    return T(op, *nargs)
+
+
+def subterms(t):
+    """All subterms of t (pre-order), as strings."""
+    yield t
+    op, args = destruct(t)
+    if op is not None and op != "const":
+        for a in args:
+            yield from subterms(a)
+
+
+def occurs_only_under(t, atom, wrappers):
+    """Does every occurrence of `atom` in t sit inside a subterm whose operator is in `wrappers`?"""
+    if t == atom:
+        return False
+    op, args = destruct(t)
+    if op is None or op == "const":
+        return atom not in t if op is None else True
+    if op in wrappers:
+        return True
+    return all(occurs_only_under(a, atom, wrappers) for a in args)
